@@ -166,8 +166,17 @@ DIRECT = {
     'tolerance': ['~ 1', '~1'],
     'open': ['2000-01-01 open Assets:Foo', '2000-01-01 open Assets:Foo USD,EUR "STRICT" ; x\n  aa: 1\n'],
     'option': ['option "a" "b"', '; c\noption "a" "b"\n; d', 'option "a" "b" ; ic'],
-    'file': ['', '\n', '; c', '  ', '\r\n', '  ; c\n', '* x'],
+    'file': ['', '\n', '; c', '  ', '\r\n', '  ; c\n', '* x',
+             # optional numbers that evaluate to zero, at the edge of their parent (a model that is falsy must still be counted in a span)
+             '2000-01-01 *\n  Assets:Foo 0 USD {0 # 0 USD} @ 0\n  Assets:Bar 0.0 USD {{0}} @@ 0\n  Assets:Baz (1 - 1) USD {0 #} @ (1-1)\n'
+             '2000-01-01 balance Assets:Foo 0 ~ 0 USD\n2000-01-01 custom "x" 0 0 USD\n'],
 }
+DIRECT['unit_price'] += ['@ 0', '@ (1 - 1)', '@ 0.0']
+DIRECT['total_price'] += ['@@ 0', '@@ 0.0']
+DIRECT['tolerance'] += ['~ 0', '~0.00']
+DIRECT['cost_spec'] += ['{0}', '{{0}}', '{0 # 0 USD}', '{0 #}', '{# 0}']
+DIRECT['amount'] += ['0 USD', '1-1 USD']
+DIRECT['number_expr'] += ['0', '0.0', '1-1', '(0)']
 
 
 def main(run: core.Run) -> None:
